@@ -783,7 +783,7 @@ def near_bin(src, lo_bin, hi_bin):
     return max(0, k * BIN + off)
 
 
-def gen_deep_locus(src, with_annotation=True, max_reads=2500, chrom="chr1", extra_chrom=True):
+def gen_deep_locus(src, with_annotation=True, max_reads=2500, chrom="chr1", extra_chrom=True, front_cluster=False):
     """One chromosome with a read cluster that exceeds the splitting thresholds (>= 32768 bp and/or >= 1024 reads):
     pile-ups joined by bridge reads, valleys of depth 0-3 at chosen bins, short tail reads placed relative to
     256-bp bin boundaries (first/last bin of a sub-region), single-bin pile-ups."""
@@ -799,7 +799,8 @@ def gen_deep_locus(src, with_annotation=True, max_reads=2500, chrom="chr1", extr
     total_budget = max_reads
     deep = src.bool(0.7)
     for si in range(nseg):
-        seg_start = pos_bin * BIN + src.choice([0, 1, 17, 200, 255])
+        seg_start = pos_bin * BIN + (src.choice([0, 1, 17, 200, 255]) if not (front_cluster and si == 0) else
+                                     src.choice([160, 200, 210]))
         seg_starts.append(seg_start)
         n = src.int(220, 420) if deep and si == 0 else src.int(3, 60)
         n = min(n, total_budget)
@@ -873,6 +874,25 @@ def gen_deep_locus(src, with_annotation=True, max_reads=2500, chrom="chr1", extr
         name = "s%d" % k
         special.append(name)
         reads.append(R.make_read(name, chrom, [[s0 + 1, max(s0 + 2, e0)]], flag=src.choice([0, 16]), mapq=60))
+    # a small separate cluster right in front of the big one: it ends in the very bin in which the big cluster begins
+    # (less than a bin apart, not overlapping), and the big cluster begins with short reads confined to that bin
+    off = seg_starts[0] % BIN
+    if 150 <= off <= 215 and (front_cluster or src.bool(0.5)):
+        bin0 = seg_starts[0] - off
+        pend = seg_starts[0] - src.int(3, min(100, off - 20))          # last base (0-based, exclusive) of the small cluster
+        p0 = max(1, bin0 - src.int(300, 450))
+        n_early = src.int(1, 8)
+        for j in range(n_early + src.int(1, 3)):
+            k += 1
+            e_ = bin0 - src.int(5, 60) if j < n_early else pend - src.choice([0, 0, 3])
+            reads.append(R.make_read("p%d" % k, chrom, [[p0 + 1 + 10 * j, e_]], mapq=60))
+        for _ in range(src.int(3, 10)):
+            k += 1
+            name = "s%d" % k
+            special.append(name)
+            s0 = seg_starts[0] + src.int(0, 5)
+            reads.append(R.make_read(name, chrom, [[s0 + 1, min(bin0 + BIN - 1, s0 + src.int(25, 50))]],
+                                     flag=src.choice([0, 16]), mapq=60))
     length = max(cluster_end, end_of_last) + src.int(700, 4000)
     chroms = [[chrom, length, src.int(1, 10 ** 6)]]
     sc = {"chroms": chroms, "genes": genes if with_annotation else [], "overrides": overrides, "reads": reads,
